@@ -50,3 +50,49 @@ def partStructure : Kind → Geom → List Nt → List Nt → Pat
   | .vector, g, u, d => vectorPartStructure g u d
 
 end Moclo
+
+namespace Moclo
+
+/-- is the token a group boundary? -/
+def Tok.isMark : Tok → Bool
+  | .gopen => true
+  | .gclose => true
+  | _ => false
+
+/-- split a pattern with three non-nested groups into `pre (g1)(g2)(g3) suf` -/
+def splitGroups (p : Pat) : Option (Pat × Pat × Pat × Pat × Pat) :=
+  let pre := p.takeWhile (fun t => !t.isMark)
+  match p.dropWhile (fun t => !t.isMark) with
+  | .gopen :: r1 =>
+    let g1 := r1.takeWhile (fun t => !t.isMark)
+    match r1.dropWhile (fun t => !t.isMark) with
+    | .gclose :: .gopen :: r2 =>
+      let g2 := r2.takeWhile (fun t => !t.isMark)
+      match r2.dropWhile (fun t => !t.isMark) with
+      | .gclose :: .gopen :: r3 =>
+        let g3 := r3.takeWhile (fun t => !t.isMark)
+        match r3.dropWhile (fun t => !t.isMark) with
+        | .gclose :: suf => if suf.all (fun t => !t.isMark) then some (pre, g1, g2, g3, suf) else none
+        | _ => none
+      | _ => none
+    | _ => none
+  | _ => none
+
+/-- a piece made of exactly `n` letter tokens -/
+def isFixed (n : Nat) (g : Pat) : Bool :=
+  g.length == n && g.all (fun t => match t with | .cls _ => true | _ => false)
+
+/-- **cut-aligned**: both overhang groups have the cutter's overhang length, group 1 is either immediately
+preceded by `site N^off` (the enzyme, reading forward, cuts right before it) or immediately followed by
+`N^off rc(site)` (the enzyme on the other strand cuts right after it), and symmetrically for group 3 -/
+def cutAligned (g : Geom) (p : Pat) : Bool :=
+  match splitGroups p with
+  | none => false
+  | some (pre, g1, g2, g3, suf) =>
+    let fwd := lits g.site ++ nRun g.off
+    let rev := nRun g.off ++ lits (rcNt g.site)
+    isFixed g.k g1 && isFixed g.k g3 &&
+    (fwd.isSuffixOf pre || rev.isPrefixOf g2) &&
+    (rev.isPrefixOf suf || fwd.isSuffixOf g2)
+
+end Moclo
